@@ -15,6 +15,7 @@ package simrt
 
 import (
 	"fmt"
+	"reflect"
 	"runtime"
 	"sort"
 	"strconv"
@@ -816,4 +817,47 @@ func Solo(fn func()) *Sim {
 	}()
 	fn()
 	return s
+}
+
+// ---------------------------------------------------------------------------
+// select
+
+// Select replaces reflect.Select inside the interpreter at check time. The Go
+// runtime picks at random among several ready cases - a source of
+// nondeterminism that cannot be seeded - so inside a simulation the winner
+// among simultaneously ready cases is taken from the case's choice list
+// instead: the cases are first tried one by one, without blocking, in an order
+// rotated by the current choice; only if none is ready does the task block in
+// the real reflect.Select (where at most one case can fire first).
+func Select(cases []reflect.SelectCase) (int, reflect.Value, bool) {
+	s, t := current()
+	if t == nil || t.solo || len(cases) < 2 {
+		return reflect.Select(cases)
+	}
+	s.mu.Lock()
+	rot := 0
+	if n := len(s.Choices); n > 0 {
+		rot = int(s.Choices[(s.Step*7+3)%n])
+	}
+	s.Counters["select"]++
+	s.mu.Unlock()
+	n := len(cases)
+	fired := -1
+	var rv reflect.Value
+	var rok bool
+	for k := 0; k < n; k++ {
+		i := (k + rot) % n
+		if cases[i].Dir == reflect.SelectDefault {
+			continue
+		}
+		chosen, v, ok := reflect.Select([]reflect.SelectCase{cases[i], {Dir: reflect.SelectDefault}})
+		if chosen == 0 {
+			fired, rv, rok = i, v, ok
+			break
+		}
+	}
+	if fired >= 0 {
+		return fired, rv, rok
+	}
+	return reflect.Select(cases)
 }
